@@ -37,7 +37,7 @@ All twenty properties are claimed in `MANIFEST.json`; `not_applicable` is empty.
 | C04 | Body (v0.0 / v0.1), SpecEnc (`specFileV01`, `specFileV00`) | `readV01_enc`, `legacy_rewrite_v01`, `readV00_enc`, `legacy_rewrite_v00`, `other_version_refused`, `v00_window_ignored`, `v01_window_eq_slice`, `legacy_stream_eq_bytes` | numpy `column_stack` / `ma.concatenate` error behaviour on irregular v0.0 files |
 | C05 | JS | `js_index`, `js_conf_index`, `jsDims_eq`, `js_agrees_v02`, `js_agrees_v01`, `js_v00_enc`, `js_agrees_v00` | `binary-parser` stand-in; the version switch (`hcls`) evaluated on every pattern around the band edges |
 | C06 | Cache | `read_pure`, `read_value_is_decode` + `read_same_after_any_two_histories` (history independence as one equation: after any history the value read = the pure decode of the bytes), `results_disjoint`, `mutation_local`, `other_calls_preserve`, `pose_independent_of_cache` | md5 idealised injective |
-| C07 | Prog (`Rel`/`Blind`/`SkipFree`), Stream | `truncated_rejected`, `truncated_rejected_stream_full`, `trailing_ignored(_any)`, `truncated_window_stream(_slice)` (via `Proofs/StreamRev.sr_agree`), `truncated_window_stream_complete`, `truncated_window_stream_any_cache`, `cache_stays_ok` (every cache state, and "raises when the intact read raises": `Proofs/StreamWarm.lean`) | — |
+| C07 | Prog (`Rel`/`Blind`/`SkipFree`), Stream | `truncated_rejected`, `truncated_rejected_stream_full`, `trailing_ignored(_any)`, `trailing_ignored_window` (appended bytes change nothing under any valid window either), `truncated_window_stream(_slice)` (via `Proofs/StreamRev.sr_agree`), `truncated_window_stream_complete`, `truncated_window_stream_any_cache`, `cache_stays_ok` (every cache state, and "raises when the intact read raises": `Proofs/StreamWarm.lean`) | — |
 | C08 | PoseOps | `backends_agree`, `convert_eq`, `missing_all_dims_iff_conf_zero`, `getPoints/selectFrames/sliceStep_agree`, `matmul_point_view` | torch / tf primitives |
 | C09 | PoseOps, Spatial, Interp, Normalize | `visEq_view`, `zeroFilled_exact`, `…_ni` for nine operations, `run_ni`, `program_noninterference`; `Props/C09Norm`: `normalize_ni`, `normalizeDistribution_ni`, `runN_ni`; `Props/C09Repr`: `rep2_ni`, `rep3_ni`, `pointsRepRows_ni`, `forward_ni` (the assembled representation); `Props/C09Ser`: `serialise_ni` (write → read); `interpolateWith_ni` (every interpolation kind) | 3-D normaliser (K4): two-run execution |
 | C10 | Tensor, Masked | `run_refines`, `shapes_identical`, `elementwise_valid_iff`, `strict_sum_valid_iff`, `mean_valid_iff`, `zero_filled_exact`, `run_append_only`, `run_keeps_register` (no operation changes an earlier register) | — |
